@@ -46,6 +46,124 @@ pub fn cyclic(ss: &SubstitutionSet) -> bool {
     false
 }
 
+/// Would unifying `a` with `b` under `ss` need the occurs check?  The engine's unification has none (as usual for Prolog), and a
+/// unification that binds a variable to a term containing it can recurse without end INSIDE `unify`, before any result exists
+/// that `cyclic` could look at (found by a seed sweep: `$W = [$Z, $Y], append([$W, $Z], [$X], $W)`).  Such pairs are outside
+/// every claim (C06, C08), so the generator must skip the program before the engine sees it.  This is a plain Robinson
+/// unification with occurs check over an overlay of bindings, conservative on purpose: a clash does not stop it (the engine may
+/// visit the pairs in another order), function terms count as closed values, and running out of fuel counts as "needs it".
+pub fn needs_occurs_check(a: &Unifiable, b: &Unifiable, ss: &SubstitutionSet) -> bool {
+    let mut ov: std::collections::HashMap<usize, Unifiable> = std::collections::HashMap::new();
+    let mut fuel: usize = 20000;
+    oc_unify(a, b, ss, &mut ov, &mut fuel).is_err()
+}
+
+type Ov = std::collections::HashMap<usize, Unifiable>;
+
+fn oc_walk(t: &Unifiable, ss: &SubstitutionSet, ov: &Ov, fuel: &mut usize) -> Result<Unifiable, ()> {
+    let mut cur = t.clone();
+    loop {
+        if *fuel == 0 { return Err(()); }
+        *fuel -= 1;
+        let next = match &cur {
+            Unifiable::LogicVar { id, .. } => {
+                if let Some(x) = ov.get(id) { Some(x.clone()) }
+                else if *id < ss.len() { match &ss[*id] { Some(x) => Some((**x).clone()), None => None } }
+                else { None }
+            },
+            _ => None,
+        };
+        match next { Some(n) => cur = n, None => return Ok(cur) }
+    }
+}
+
+fn oc_occurs(id: usize, t: &Unifiable, ss: &SubstitutionSet, ov: &Ov, fuel: &mut usize) -> Result<bool, ()> {
+    let t = oc_walk(t, ss, ov, fuel)?;
+    match &t {
+        Unifiable::LogicVar { id: j, .. } => Ok(*j == id),
+        Unifiable::SComplex(ts) => { for x in ts { if oc_occurs(id, x, ss, ov, fuel)? { return Ok(true); } } Ok(false) },
+        Unifiable::SLinkedList { term, next, .. } => Ok(oc_occurs(id, term, ss, ov, fuel)? || oc_occurs(id, next, ss, ov, fuel)?),
+        _ => Ok(false),
+    }
+}
+
+/// the elements of a list and its tail variable, if it has one
+fn oc_list(t: &Unifiable) -> (Vec<Unifiable>, Option<Unifiable>) {
+    let mut els = vec![];
+    let mut cur = t;
+    while let Unifiable::SLinkedList { term, next, tail_var, .. } = cur {
+        if **term == Unifiable::Nil { break; }
+        if *tail_var && **next == Unifiable::Nil { return (els, Some((**term).clone())); }
+        els.push((**term).clone());
+        cur = next;
+    }
+    (els, None)
+}
+
+fn oc_unify(a: &Unifiable, b: &Unifiable, ss: &SubstitutionSet, ov: &mut Ov, fuel: &mut usize) -> Result<(), ()> {
+    if *fuel == 0 { return Err(()); }
+    *fuel -= 1;
+    let a = oc_walk(a, ss, ov, fuel)?;
+    let b = oc_walk(b, ss, ov, fuel)?;
+    match (&a, &b) {
+        (Unifiable::Anonymous, _) | (_, Unifiable::Anonymous) => Ok(()),
+        (Unifiable::SFunction { .. }, _) | (_, Unifiable::SFunction { .. }) => Ok(()),
+        (Unifiable::LogicVar { id: i, .. }, Unifiable::LogicVar { id: j, .. }) if i == j => Ok(()),
+        (Unifiable::LogicVar { id, .. }, t) | (t, Unifiable::LogicVar { id, .. }) => {
+            if oc_occurs(*id, t, ss, ov, fuel)? { return Err(()); }
+            ov.insert(*id, t.clone());
+            Ok(())
+        },
+        (Unifiable::SComplex(xs), Unifiable::SComplex(ys)) => {
+            for (x, y) in xs.iter().zip(ys.iter()) { oc_unify(x, y, ss, ov, fuel)?; }
+            Ok(())
+        },
+        (Unifiable::SLinkedList { .. }, Unifiable::SLinkedList { .. }) => {
+            let (xs, xt) = oc_list(&a);
+            let (ys, yt) = oc_list(&b);
+            let n = xs.len().min(ys.len());
+            for k in 0..n { oc_unify(&xs[k], &ys[k], ss, ov, fuel)?; }
+            // what is left of the longer list meets the tail variable of the shorter one
+            let rest = |v: &Vec<Unifiable>, t: &Option<Unifiable>| -> Unifiable {
+                let mut items: Vec<Unifiable> = v[n..].to_vec();
+                match t { Some(tv) => { items.push(tv.clone()); make_linked_list(true, items) }, None => make_linked_list(false, items) }
+            };
+            match (&xt, &yt) {
+                (Some(tx), Some(ty)) if xs.len() == ys.len() => oc_unify(tx, ty, ss, ov, fuel),
+                (Some(tx), _) if xs.len() <= ys.len() => { let r = rest(&ys, &yt); oc_unify(tx, &r, ss, ov, fuel) },
+                (_, Some(ty)) if ys.len() <= xs.len() => { let r = rest(&xs, &xt); oc_unify(ty, &r, ss, ov, fuel) },
+                _ => Ok(()),
+            }
+        },
+        _ => Ok(()),
+    }
+}
+
+/// the variables a term reaches through the bindings
+fn oc_vars(t: &Unifiable, ss: &SubstitutionSet, out: &mut Vec<usize>, fuel: &mut usize) -> Result<(), ()> {
+    let ov = Ov::new();
+    let t = oc_walk(t, ss, &ov, fuel)?;
+    match &t {
+        Unifiable::LogicVar { id, .. } => { out.push(*id); Ok(()) },
+        Unifiable::SComplex(ts) => { for x in ts { oc_vars(x, ss, out, fuel)?; } Ok(()) },
+        Unifiable::SFunction { terms, .. } => { for x in terms { oc_vars(x, ss, out, fuel)?; } Ok(()) },
+        Unifiable::SLinkedList { term, next, .. } => { oc_vars(term, ss, out, fuel)?; oc_vars(next, ss, out, fuel) },
+        _ => Ok(()),
+    }
+}
+
+/// a built-in that unifies its last argument with a term built from the earlier ones needs the occurs check when a variable of
+/// the last argument is among the variables of the earlier ones (conservative)
+pub fn builtin_needs_occurs_check(terms: &Vec<Unifiable>, ss: &SubstitutionSet) -> bool {
+    if terms.len() < 2 { return false; }
+    let mut fuel: usize = 20000;
+    let mut outs = vec![];
+    if oc_vars(&terms[terms.len() - 1], ss, &mut outs, &mut fuel).is_err() { return true; }
+    let mut ins = vec![];
+    for t in &terms[..terms.len() - 1] { if oc_vars(t, ss, &mut ins, &mut fuel).is_err() { return true; } }
+    outs.iter().any(|v| ins.contains(v))
+}
+
 pub fn solve<'a>(ctx: &Ctx<'a>, goal: &Goal, level: usize, ss: &SS<'a>, cont: &mut dyn FnMut(&SS<'a>) -> Flow) -> Flow {
     ctx.steps.set(ctx.steps.get() + 1);
     if ctx.steps.get() > ctx.limit { return Flow::Halt; }
@@ -58,6 +176,7 @@ pub fn solve<'a>(ctx: &Ctx<'a>, goal: &Goal, level: usize, ss: &SS<'a>, cont: &m
             for i in 0..n {
                 let rule = get_rule(ctx.kb, &key, i);
                 let head = rule.get_head();
+                if needs_occurs_check(&head, c, ss) { ctx.cyclic.set(true); return Flow::Halt; }
                 if let Some(s1) = head.unify(c, ss) {
                     if cyclic(&s1) { ctx.cyclic.set(true); return Flow::Halt; }
                     let body = rule.get_body();
@@ -95,13 +214,16 @@ pub fn solve<'a>(ctx: &Ctx<'a>, goal: &Goal, level: usize, ss: &SS<'a>, cont: &m
             match first { Some(s) => cont(&s), None => if r == Flow::Halt { Flow::Halt } else { Flow::Next } }
         },
         Goal::BuiltInGoal(b) => {
+            if let ("append" | "functor" | "include" | "exclude" | "count", Some(t)) = (b.functor.as_str(), b.terms.as_ref()) {
+                if builtin_needs_occurs_check(t, ss) { ctx.cyclic.set(true); return Flow::Halt; }
+            }
             let res: Option<SS<'a>> = match b.functor.as_str() {
                 "!" => { ctx.cut_ran.borrow_mut().insert(level); let r = cont(ss); return if r == Flow::Next { Flow::CutFail(level) } else { r }; },
                 "fail" => None,
                 "nl" => { print!("\n"); Some(Rc::clone(ss)) },
                 "print" => { next_solution_print(b.clone(), ss); Some(Rc::clone(ss)) },
                 "print_list" => { next_solution_print_list(b.clone(), ss); Some(Rc::clone(ss)) },
-                "unify" => { let t = b.terms.as_ref().unwrap(); let r = t[0].unify(&t[1], ss); if let Some(s1) = &r { if cyclic(s1) { ctx.cyclic.set(true); return Flow::Halt; } } r },
+                "unify" => { let t = b.terms.as_ref().unwrap(); if needs_occurs_check(&t[0], &t[1], ss) { ctx.cyclic.set(true); return Flow::Halt; } let r = t[0].unify(&t[1], ss); if let Some(s1) = &r { if cyclic(s1) { ctx.cyclic.set(true); return Flow::Halt; } } r },
                 "equal" => bip_equal(b.clone(), ss),
                 "less_than" => bip_less_than(b.clone(), ss),
                 "less_than_or_equal" => bip_less_than_or_equal(b.clone(), ss),
